@@ -511,11 +511,90 @@ def run(m: Model, r: Report, tier: str) -> None:
     r.check(okn, "R7", f"{rec.qualname}#negative-offset", f"{detail}: tail reading of a log shorter than the requested count must start at the first record", loc=rec.loc)
 
     # ---------------------------------------------------------------- R8
+    # hr's option handling is decided by evaluation, not by its text: the statements between `with PenlogReader(...)` and the print loop are
+    # interpreted for every mode x line count over a model log [0..L-1]; `reader.records(prio, offset, reverse)` is answered by the slice
+    # semantics R5/R7/R10 establish for PenlogReader.records, `islice(g, n)` by the first n elements.
     hr = m.require_function(f"{HR}._main")
-    sh = ast.unparse(hr.node)
-    r.check("islice(record_generator, args.lines)" in sh and "args.head" in sh, "R8", f"{hr.qualname}#head", "head must take the first n records", loc=hr.loc)
-    r.check("reader.records(args.priority, offset=-args.lines)" in sh and "args.tail" in sh, "R8", f"{hr.qualname}#tail", "tail must start n records before the end", loc=hr.loc)
-    r.check("offset=-1 if args.reverse else 0, reverse=args.reverse" in sh, "R8", f"{hr.qualname}#reverse", "reverse must start at the last record", loc=hr.loc)
+    withs = [n for n in ast.walk(hr.node) if isinstance(n, ast.With) and any("PenlogReader" in ast.unparse(i_.context_expr) for i_ in n.items)]
+    if len(withs) != 1 or not isinstance(withs[0].items[0].optional_vars, ast.Name):
+        raise AnalysisError(f"{hr.qualname}: the `with PenlogReader(...) as reader` block was not found")
+    rname = withs[0].items[0].optional_vars.id
+    loops = [k for k, s_ in enumerate(withs[0].body) if isinstance(s_, ast.For)]
+    if len(loops) != 1:
+        raise AnalysisError(f"{hr.qualname}: expected one print loop inside the reader block")
+    setup, loop = withs[0].body[:loops[0]], withs[0].body[loops[0]]
+    arg_attrs = sorted({ast.unparse(n) for s_ in setup + [loop] for n in ast.walk(s_) if isinstance(n, ast.Attribute) and isinstance(n.value, ast.Name) and n.value.id == "args"})
+    known_args = {"args.head", "args.tail", "args.reverse", "args.lines", "args.priority"}
+    if not set(arg_attrs) <= known_args:
+        raise AnalysisError(f"{hr.qualname}: option(s) {sorted(set(arg_attrs) - known_args)} are not part of the navigation model")
+
+    def _records_model(L: int, offset: int, reverse: bool):
+        if offset < 0:
+            offset = max(L + offset, 0)
+        if offset != 0 and not 0 <= offset < L:
+            return "IndexError"
+        if L == 0:
+            return []
+        return list(range(offset, -1, -1)) if reverse else list(range(offset, L))
+
+    def _hr_oracle(L: int):
+        def oracle(call: ast.Call, env):
+            from sa.miniterp import eval_expr as ev
+            f = ast.unparse(call.func)
+            if f == f"{rname}.records":
+                names = ["priority", "offset", "reverse"]
+                vals = {"priority": None, "offset": 0, "reverse": False}
+                for k_, a_ in enumerate(call.args):
+                    vals[names[k_]] = ev(a_, env, oracle)
+                for kw_ in call.keywords:
+                    vals[kw_.arg] = ev(kw_.value, env, oracle)
+                if vals["priority"] != "PRIO":
+                    return "WRONG-PRIORITY"
+                return _records_model(L, vals["offset"], bool(vals["reverse"]))
+            if f in ("islice", "itertools.islice") and len(call.args) == 2:
+                g, n_ = ev(call.args[0], env, oracle), ev(call.args[1], env, oracle)
+                if not isinstance(g, list):
+                    return g
+                if n_ is not None and n_ < 0:
+                    return "ValueError"
+                return g[:n_]
+            if f in ("iter", "list", "reversed") and len(call.args) == 1:
+                g = ev(call.args[0], env, oracle)
+                g = list(g) if isinstance(g, (list, tuple)) else g
+                return g[::-1] if f == "reversed" and isinstance(g, list) else g
+            if f == "len" and len(call.args) == 1 and ast.unparse(call.args[0]) == rname:
+                return L
+            return NotImplemented
+        return oracle
+
+    from sa.miniterp import exec_body as _exec, Raised as _Raised
+    if not (isinstance(loop.iter, (ast.Name, ast.Call))):
+        raise AnalysisError(f"{hr.qualname}: print loop iterates over {ast.unparse(loop.iter)}")
+    bad8: dict[str, list] = {"head": [], "tail": [], "reverse": [], "forward": []}
+    n_eval = 0
+    for mode in ("forward", "head", "tail", "reverse"):
+        for L in range(0, 5):
+            for n_lines in (0, 1, 2, 3, 4, 7, 100):
+                env = {"args.head": mode == "head", "args.tail": mode == "tail", "args.reverse": mode == "reverse", "args.lines": n_lines, "args.priority": "PRIO"}
+                full = list(range(L))
+                want = {"forward": full, "head": full[:n_lines], "tail": full[L - min(n_lines, L):], "reverse": full[::-1]}[mode]
+                try:
+                    _exec(setup, env, _hr_oracle(L))
+                    from sa.miniterp import eval_expr as _ev
+                    got = _ev(loop.iter, env, _hr_oracle(L))
+                except _Raised as ex_:
+                    got = "raises " + ast.unparse(ex_.node)[:40]
+                n_eval += 1
+                if got != want:
+                    bad8[mode].append((L, n_lines, got, want))
+    r.extra["hr_navigation_evaluated"] = n_eval
+    r.check(not bad8["head"], "R8", f"{hr.qualname}#head", f"(log length, -n, printed, expected) {bad8['head'][:3]}: head must print the first n selected records", loc=hr.loc)
+    r.check(not bad8["tail"], "R8", f"{hr.qualname}#tail", f"(log length, -n, printed, expected) {bad8['tail'][:3]}: tail must print the last n records (all of a shorter log, none for n = 0)", loc=hr.loc)
+    r.check(not bad8["reverse"], "R8", f"{hr.qualname}#reverse", f"(log length, -n, printed, expected) {bad8['reverse'][:3]}: reverse must print every record once, last first", loc=hr.loc)
+    r.check(not bad8["forward"], "R8", f"{hr.qualname}#forward", f"(log length, -n, printed, expected) {bad8['forward'][:3]}: without a mode option every record is printed once, in order", loc=hr.loc)
+    pr_ok = any(isinstance(n, ast.Call) and ast.unparse(n.func) == "print" and n.args and isinstance(n.args[0], ast.Name) and isinstance(loop.target, ast.Name) and n.args[0].id == loop.target.id
+                for n in ast.walk(loop))
+    r.check(pr_ok, "R8", f"{hr.qualname}#prints-each", "every record of the selected slice must be printed", loc=hr.loc)
 
     r.assumptions += ["json.dumps with default arguments emits one ASCII line; zstandard/gzip streams decompress to the written bytes",
                       "R7 evaluates the extracted integer expression over len 1..8, offset -12..-1 (pure arithmetic, no gallia code is run)"]
